@@ -623,9 +623,8 @@ def _purity_call(name, op, world, names, model, df, q, ev, virt, args, ctx):
         do = {}
         if opt % 2:
             v = q[0]
-            # simulate() implements do(X=x) by rejection on X: pick a value of positive marginal probability
-            marg = RefJoint.from_bn(world).posterior([v])
-            do = {L(v): names.S(v, int(np.argmax(marg)))}
+            # any state of the variable (an intervention sets it whatever its own distribution says)
+            do = {L(v): names.S(v, (seed + opt) % world["card"][v])}
             args["do"] = (do, lambda d: sorted((repr(k), repr(v)) for k, v in d.items()))
         # evidence only without do: its probability under the mutilated network is not checked here (C07/C13 do that)
         evd = {} if do else dict(evv or {})
